@@ -81,6 +81,7 @@ type c05World struct {
 func c05Start(cfg c05Config, real bool) *c05World {
 	w := &c05World{cfg: cfg, hits: map[string]int{}}
 	w.auth = StartAuthService(map[string]string{userA: passA, userB: passB})
+	w.auth.NullOK = map[string]bool{"kiosk": true}
 	// two backends on one port, different loopback addresses
 	for try := 0; try < 20 && len(w.lns) < 2; try++ {
 		for _, l := range w.lns {
@@ -123,6 +124,7 @@ func c05Start(cfg c05Config, real bool) *c05World {
 	} else {
 		sb.WriteString(" Tls: disable\n")
 	}
+	fmt.Fprintf(&sb, " SessionKey: %q\n SessionEncryptionKey: %q\n", c05SessionKey, c05SessionEnc)
 	fmt.Fprintf(&sb, "OpenId:\n ProviderUrl: %q\n ClientId: rdpgw\n ClientSecret: secret\n", idp.Issuer)
 	if cfg.has("openid") && !cfg.NoToken {
 		sb.WriteString("Caps:\n TokenAuth: true\n")
@@ -172,6 +174,9 @@ func c05Inputs() []c05Input {
 	add("basic-unknown-user", "bad", basicHdr("mallory", passA))
 	add("basic-empty-password", "bad", basicHdr(userA, ""))
 	add("basic-empty-user", "bad", basicHdr("", passA))
+	// an account whose empty password the backend confirms (PAM nullok): whether that is valid is for the backend
+	add("basic-good-empty-password-of-a-nullok-account", "good-basic", basicHdr("kiosk", ""))
+	add("basic-nullok-account-with-a-password", "bad", basicHdr("kiosk", "x"))
 	// bytes that are not UTF-8 inside otherwise right credentials: other credentials, never confirmed
 	add("basic-password-with-an-invalid-byte", "bad", basicHdr(userA, passA[:7]+"\xff"+passA[7:]))
 	add("basic-password-with-a-truncated-utf8-sequence", "bad", basicHdr(userA, passA+"\xc3"))
@@ -395,7 +400,7 @@ func (w *c05World) askHost(conn net.Conn, br *bufio.Reader, ip string) string {
 func c05(env *Env, rep *Report) {
 	cfgs := c05Configs()
 	inputs := c05Inputs()
-	rep.Rule = fmt.Sprintf("the real rdpgw binary started once per startable authentication subset (%d configurations; subsets with local run with TLS) with a scripted authentication service (password table in place of PAM, the real NTLM verifier) behind the unix socket; against each: methods {websocket upgrade, legacy RDG_OUT_DATA, RDG_IN_DATA, GET, POST, FOO} x %d Authorization header shapes (absent, empty, bare / truncated scheme words, Basic good / wrong password / other user's password / unknown user / empty parts / not base64 / no colon / case variants / doubled blank, good Basic credentials whose base64 text contains NTLM or Negotiate, NTLM and Negotiate garbage / type 3 without type 1 / 16-byte type 1, Bearer, Digest, two header lines); Kerberos: a ticket without and with an Active Directory PAC (gokrb5 test vectors: the tunnel runs under the confirmed account name, not the directory's display name), SPNEGO tokens with a valid ticket, a ticket under another service key, an expired and a not-yet-valid ticket; the same credentials accompanied by headers in which the client announces another user (RDG-User-Id in three encodings, reverse-proxy remote-user headers): the tunnel still carries the confirmed user; in configurations with OpenID next to other schemes the whole input list again together with the session cookie of a completed OpenID login (real callback) of the same and of another user; NTLM histories: type 1 + type 3 on one connection (NTLM and Negotiate scheme words), on two connections, type 3 twice, wrong password, unknown user; after one type 1 every sequence of two (thorough: three) authenticate messages over that challenge from {A right, B right, A wrong password, unknown, names A keyed by B, names B keyed by A}. "+
+	rep.Rule = fmt.Sprintf("the real rdpgw binary started once per startable authentication subset (%d configurations; subsets with local run with TLS) with a scripted authentication service (password table in place of PAM, the real NTLM verifier) behind the unix socket; against each: methods {websocket upgrade, legacy RDG_OUT_DATA, RDG_IN_DATA, GET, POST, FOO} x %d Authorization header shapes (absent, empty, bare / truncated scheme words, Basic good / wrong password / other user's password / unknown user / empty parts / an account whose empty password the backend confirms / not base64 / no colon / case variants / doubled blank, good Basic credentials whose base64 text contains NTLM or Negotiate, NTLM and Negotiate garbage / type 3 without type 1 / 16-byte type 1, Bearer, Digest, two header lines); Kerberos: a ticket without and with an Active Directory PAC (gokrb5 test vectors: the tunnel runs under the confirmed account name, not the directory's display name), SPNEGO tokens with a valid ticket, a ticket under another service key, an expired and a not-yet-valid ticket; the same credentials accompanied by headers in which the client announces another user (RDG-User-Id in three encodings, reverse-proxy remote-user headers): the tunnel still carries the confirmed user; in configurations with OpenID next to other schemes the whole input list again together with the session cookie of a completed OpenID login (real callback) of the same and of another user; requests that carry an (empty) session cookie issued 0 s / 1 min / 3 min / 1 h ago under the configured keys; NTLM histories: type 1 + type 3 on one connection (NTLM and Negotiate scheme words), on two connections, type 3 twice, wrong password, unknown user; after one type 1 every sequence of two (thorough: three) authenticate messages over that challenge from {A right, B right, A wrong password, unknown, names A keyed by B, names B keyed by A}. "+
 		"Oracle: no Authorization => 401 with exactly one WWW-Authenticate per enabled scheme; the handler (101 / legacy 200 accept) is reached iff credentials of an enabled scheme were confirmed; the tunnel then carries the confirmed user (observed through which loopback backend the channel reaches); openid alone => open; no panic in the gateway log, process alive. distinct_nontrivial = distinct (configuration, method, input) cases.", len(cfgs), len(inputs)+2)
 	rep.Assumptions = append(rep.Assumptions, "PAM is replaced by a password table (the property is about the gateway's use of the backend's answer)", "Kerberos tickets are forged with the keytab the harness generated for the gateway (the gateway's verification path is real, the KDC is not); wrong-case scheme words and requests with two Authorization lines are unspecified",
 		"real sockets: every read waits up to 10 s; a timeout is an infrastructure error, not a verdict")
@@ -585,6 +590,7 @@ func c05(env *Env, rep *Report) {
 		distinct += w.whileOpen(viol, rep)
 		distinct += w.decoyNames(viol, rep)
 		distinct += w.withSession(viol, rep, ins)
+		distinct += w.agedSessions(viol, rep)
 		// NTLM: after a completed exchange (on a plain GET, which leaves the connection open) a second
 		// authenticate message on the same connection names another user with the first user's proof
 		if cfg.has("ntlm") {
